@@ -18,7 +18,9 @@ func init() {
 			"S1 operand symmetry of every semantic-equivalence relation in package syntax (each comparison / nested relation call pairs a receiver-derived value with the corresponding argument-derived value; no self-comparison, no crossed fields), " +
 			"S2 field coverage (each semantic field named by the property is read through both sides in the relation of its type), " +
 			"S3 the comparison gates attachment in reattachToPipestance (byte equality with the recorded file and, unless that file is _mrosource itself, EquivalentCall; every refusal after locking unlocks), " +
-			"S4 exclusivity (lock file written only when absent, after registering the signal handler; mutating entry points return early when read-only). " +
+			"S4 exclusivity (lock file written only when absent, after registering the signal handler, which only the lock owner registers; mutating entry points return early when read-only), " +
+			"S5 the relations over collections (calls, parameters, struct members) compare every element, " +
+			"S6 a parameter is accepted without comparing its type name only on an edge where IsFile() == KindIsFile was established (a plain file type may be renamed; composite types containing files may not). " +
 			"NOT decided: completeness (that cosmetic edits are accepted), races between two simultaneous first starts.",
 		Assumptions: commonAssumptions,
 	}
